@@ -137,6 +137,15 @@ pub fn c02_single(reference_ok: bool, rec: &ExecRecord) -> Vec<Violation> {
             });
         }
     }
+    for (item, a, aop, b, bop) in rec.unordered_pairs.iter().take(4) {
+        out.push(Violation {
+            property: "C02".into(),
+            class: "undeclared-order".into(),
+            detail: format!(
+                "{aop} by {a} and {bop} by {b} on {item}: nothing the scheduler was told (dependencies at launch, jobs created or released while handling another) orders the two"
+            ),
+        });
+    }
     for r in &rec.races {
         out.push(Violation {
             property: "C02".into(),
